@@ -163,6 +163,24 @@ func runNextFrameMax(data []byte, max int64) decRes {
 	return decRes{h, err, s.Off, s.MaxEnd, s.Reads}
 }
 
+// runHeaderInsideMessage: the streaming reader meets the bytes as the header of the next frame of
+// an open message, fetched by Read. For an io.Reader io.EOF means "the message is complete", so an
+// incomplete header has to surface as another error.
+func runHeaderInsideMessage(data []byte, chunk int) (n int, err error) {
+	pre := []byte{0x02, 0x01, 'x'} // binary, not final, one byte
+	s := env.NewSrc(append(append([]byte{}, pre...), data...))
+	s.Policy = env.FixedChunk(chunk)
+	r := &wsutil.Reader{Source: s, SkipHeaderCheck: true}
+	if _, e := r.NextFrame(); e != nil {
+		return 0, fmt.Errorf("harness: %v", e)
+	}
+	b := make([]byte, 1)
+	if k, e := r.Read(b); k != 1 || e != nil {
+		return 0, fmt.Errorf("harness: first fragment: n=%d err=%v", k, e)
+	}
+	return r.Read(make([]byte, 8))
+}
+
 func main() {
 	explore.Main("C01", func(r *explore.Run) {
 		L := lengths(r.Thorough())
@@ -294,6 +312,13 @@ func main() {
 							}
 							if a.err == nil && (a.h != b.h || a.used != b.used) {
 								return explore.Failf("decoders-disagree-fields", "ReadHeader %+v/%d NextFrame %+v/%d", a.h, a.used, b.h, b.used)
+							}
+							if rerr == refmodel.ErrIncomplete {
+								for _, ch := range []int{0, 1} {
+									if n, e := runHeaderInsideMessage(data, ch); e == nil || e == io.EOF || n != 0 {
+										return explore.Failf("incomplete-header-inside-a-message-not-a-failure", "Read returned n=%d err=%v (chunk=%d): for an io.Reader that is data or a clean end", n, e, ch)
+									}
+								}
 							}
 							if rerr != nil {
 								if a.err == nil {
